@@ -165,6 +165,15 @@ PROPS = {
         "assumptions": ["goroutine termination inside Stop() is observed (no hook call on a stopped instance's URL after Reconcile returned), not modelled",
                         "one reconcile at a time per meta-controller (controller-runtime runs a single worker for each)"],
     },
+    "C17": sync_prop([("Mc.Props.C17", "Mc.C17." + t) for t in ["excl_step", "excl_run", "C17_lockset", "C17_accesses_locked", "C17_table_covers"]],
+                     ["update-child", "update-revision", "update-parent", "create-child", "race-run"],
+                     "non-trivial = the sync wrote something (every cached object is fingerprinted before and after each sync), or a race-detector run of concurrent workers; "
+                     "race stream: 4 workers resolve the same related resources for distinct parents at once on a fresh customize manager, built with -race",
+                     ["outcome"], assumptions=["the Go memory model is not modelled: race freedom is proved for an abstract reader/writer lock and tied to the code by the re-extracted table of "
+                                               "accesses to the process-wide maps and the lock held at each (intra-procedural, source order)",
+                                               "informer caches hold objects the API server once held"],
+                     extra_streams=[{"pkg": "pkg/controller/common/customize", "test": "TestVerifRelatedRace", "race": True, "shards": 4, "n_quick": 8, "n_thorough": 80, "thorough_seeds": 1,
+                                     "nontrivial": ["race-run"]}]),
     "C15": sync_prop(C15T, ["hook-customize", "related-selected"],
                      "non-trivial = the customize hook was called in the sync, or (event stream) the related object is selected by some parent's rules" + RULE_EVENTS,
                      ["hook", "outcome", "events"], extra_streams=[events("composite", 600, 6000, ["related-selected", "related-add", "related-update", "related-delete"])]),
